@@ -74,7 +74,10 @@ func (h *chandler) OnClose(c gnet.Conn, err error) gnet.Action {
 	return gnet.None
 }
 
-func (h *chandler) OnTick() (time.Duration, gnet.Action) { return 5 * time.Millisecond, gnet.None }
+func (h *chandler) OnTick() (time.Duration, gnet.Action) {
+	h.log("tick", "") // not part of the trace, but a tick after Stop returned is a callback after the end (C06)
+	return 5 * time.Millisecond, gnet.None
+}
 
 // linkLocal: an IPv6 link-local address of this host with its zone, if there is one
 func linkLocal() (string, bool) {
@@ -579,6 +582,9 @@ func runClientLife(ws []string) string {
 				names[a] = fmt.Sprintf("c%d", len(names)+1)
 			}
 			a = names[a]
+		}
+		if e.kind == "tick" {
+			continue
 		}
 		if a == "" {
 			parts = append(parts, e.kind)
